@@ -220,3 +220,26 @@ Definition sigma_of (m : matched) : sigma := mkSig (m_nb m) (m_b m) (m_vb m).
 
 (* the three repairs: merge keeps value_bindings and node_bindings, an output-count mismatch is a recorded failure *)
 Definition repaired (fl : flags) : bool := keep_vb fl && keep_nb fl && out_fail fl.
+
+(* ------------------------------------------------------------------ attribute patterns the matcher can evaluate *)
+(* AttrConstantPattern.matches raises (tuple(<int>)) when a scalar integer pattern meets a list-valued attribute of
+   the same name (Matcher.attr_const_matches = None).  `attrs_typed tbl g`: that combination does not occur between the
+   pattern's constant attribute patterns and the attributes of any node of g. *)
+Definition attr_pat_typed (g : hgraph) (na : string * apat) : bool :=
+  match snd na with
+  | APConst c =>
+      forallb (fun h => match assoc String.eqb (fst na) (h_attrs h) with
+                        | Some a => match attr_const_matches c a with None => false | Some _ => true end
+                        | None => true
+                        end) (g_nodes g)
+  | APVar _ _ => true
+  end.
+Definition attrs_typed (tbl : list npat) (g : hgraph) : bool :=
+  forallb (fun np => forallb (attr_pat_typed g) (np_attrs np)) tbl.
+
+(* a node of the graph being matched (not of an enclosing graph): what the candidate enumeration ranges over *)
+Definition own_node (g : hgraph) (n : nid) : bool :=
+  match nth_error (g_nodes g) n with
+  | Some h => match h_outs h with o :: _ => negb (foreign g o) | [] => true end
+  | None => false
+  end.
